@@ -48,7 +48,7 @@ REQUIRED_THEOREMS = ['OpusProps.C11.' + n for n in (
     'set_get', 'set_get_decoder', 'set_get_multistream', 'bandwidth_reported_after_frame',
     'reject_unchanged', 'application_locked_after_first_frame', 'reject_unchanged_decoder',
     'reject_unchanged_multistream', 'reject_unchanged_ms_decoder',
-    'constants_agree', 'ctl_inv', 'ctl_inv_decoder', 'ctl_inv_multistream', 'create_rejects', 'create_rejects_multistream',
+    'constants_agree', 'ctl_inv', 'encode_never_changes_settings', 'ctl_inv_decoder', 'ctl_inv_multistream', 'create_rejects', 'create_rejects_multistream',
     'frame_size_select_spec', 'honour_duration', 'honour_channels', 'honour_channels_midstream',
     'honour_bandwidth', 'lowdelay_celt_only', 'short_frames_celt_only', 'encode_keeps_inv')]
 UNPROVED = [
